@@ -72,6 +72,8 @@ def parse_output(text, names):
         r.failed_checks = fails
         if "CBMC timed out" in body:
             r.status, r.reason = "undecided", "solver timeout"
+        elif "run out of memory" in body:
+            r.status, r.reason = "undecided", "solver out of memory"
         elif re.search(r"VERIFICATION:- SUCCESSFUL", body):
             if r.covers[0] < r.covers[1]:
                 r.status, r.reason = "vacuous", "unsatisfied cover witness"
@@ -95,14 +97,15 @@ def parse_output(text, names):
 
 
 class KaniRun:
-    def __init__(self, appends, tag="nlv-kani"):
-        self.overlay = ov.Overlay(appends=appends, tag=tag)
+    def __init__(self, appends, tag="nlv-kani", shims=None):
+        self.overlay = ov.Overlay(appends=appends, tag=tag, shims=shims)
+        self.target_suffix = "-shim" if shims else ""
         self.results = {}
         self.wall_s = 0.0
         self.cmds = []
 
     def _batch(self, idx, names, timeout_s, mem_gb, unwind, extra, out):
-        tdir = os.path.join(ov.CACHE, "target-kani-%d" % idx)
+        tdir = os.path.join(ov.CACHE, "target-kani%s-%d" % (self.target_suffix, idx))
         cmd = ["cargo", "kani", "-Z", "stubbing", "-Z", "unstable-options", "--target-dir", tdir,
                "--output-format", "terse", "--exact",
                "--harness-timeout", "%ds" % timeout_s, "--default-unwind", str(unwind)]
